@@ -15,7 +15,7 @@ Lemma request_on_stack_is_cyclic :
 Proof.
   intros p pa f stk b rv pd prev fr n s Hn Hk Hp.
   cbn [query_for].
-  destruct rv; destruct pd; try destruct (nmem n prev);
+  destruct rv; destruct pd; try (destruct (alookup prev n) as [seen|]; [destruct (get_info s n) as [ci|]; [destruct (nset_eqb (i_tfc ci) seen)|]|]);
     rewrite ?Hk, ?Hp, Hn; cbn [frame_mark_if];
     (destruct (nmem b (upto stk n)); eexists; (split; [reflexivity|
        cbn [fr_mark_scc fr_scc]; rewrite ?fr_register_scc, ?orb_true_r, ?orb_false_r; reflexivity])).
